@@ -323,10 +323,9 @@ def check(res, tier, replay=None):
             wit = model_races(res, prep, info, "c11")
             # the library: barrier stress
             it = 250 if quick else 5000
-            mult = 1
-            if not proved or wit:
-                mult = 10          # a theorem broke: try harder to make the race fire
-            plan = [(w, m, it * mult if m >= 2 else 20) for w in ("init", "fini") for m in (1, 2, 3, 4, 8)]
+            # the model found a two-winner schedule for the generated list: try harder to make that race fire
+            plan = [(w, m, (it * (10 if w in wit else 1)) if m >= 2 else 20)
+                    for w in ("init", "fini") for m in (1, 2, 3, 4, 8)]
             if not quick:
                 plan += [(w, 16, it) for w in ("init", "fini")]
             found |= run_races(res, prep, plan, "c11")
